@@ -92,6 +92,7 @@ type solveJob struct {
 func solveAll(w *World, obls []*Obligation, secs int, depth int, seed int, workDir string, thorough bool) {
 	prelude := ""
 	bodies := make([]string, len(obls))
+	qfBodies := make([]string, len(obls))
 	fulls := make([][]string, len(obls))
 	for i, o := range obls {
 		func() {
@@ -106,6 +107,11 @@ func solveAll(w *World, obls []*Obligation, secs int, depth int, seed int, workD
 				}
 			}()
 			bodies[i] = o.buildBody(w, depth, -1)
+			if !o.MustFail && strings.Contains(bodies[i], "(forall ") {
+				qfOnly = true
+				qfBodies[i] = o.buildBody(w, depth, -1)
+				qfOnly = false
+			}
 			for j := range o.Hyps {
 				fulls[i] = append(fulls[i], o.buildBody(w, depth, j))
 			}
@@ -136,6 +142,16 @@ func solveAll(w *World, obls []*Obligation, secs int, depth int, seed int, workD
 			}
 			_ = os.WriteFile(file, []byte(text), 0644)
 			o.Script = file
+			if qfBodies[i] != "" && len(fulls[i]) == 0 {
+				// first attempt: without the quantified assumptions (sound; decides the easy goals fast)
+				qf := filepath.Join(workDir, fmt.Sprintf("o%04d_qf.smt2", i))
+				_ = os.WriteFile(qf, []byte(prelude+qfBodies[i]), 0644)
+				r0 := solveScript(qf, 2, order[:1], false)
+				if r0.result == "unsat" {
+					o.Result, o.Solver, o.Ms, o.Model = "unsat", r0.solver+"(qf-subset)", r0.ms, r0.output
+					return
+				}
+			}
 			first := secs
 			if (len(o.Splits) > 0 || o.MustFail) && first > 3 {
 				first = 3
